@@ -41,7 +41,9 @@ func (g *customGen[V]) maybeValue(t *T) (V, bool) {
 		verifEmit("custom.begin")
 		defer verifEmit("custom.end")
 	}
+	outer := t
 	t = newT(t.tb, t.s, flags.debug, nil)
+	defer outer.adoptFailure(t)
 	defer t.cleanup()
 
 	defer func() {
